@@ -207,6 +207,9 @@ func zeroOf(typ string) string {
 	case "string":
 		return `""`
 	}
+	if isArray(typ) {
+		return typ + "{}"
+	}
 	if typ[0] == '*' || typ[0] == '[' || strings.HasPrefix(typ, "map") {
 		return "nil"
 	}
@@ -317,6 +320,14 @@ func snapExpr(pr *Prog, name, typ string) string {
 		return "c14mi(" + name + ")"
 	case "map[string]int":
 		return "c14ms(" + name + ")"
+	}
+	if isArray(typ) {
+		k, el := arrSplit(typ)
+		parts := []string{}
+		for i := 0; i < k; i++ {
+			parts = append(parts, snapExpr(pr, fmt.Sprintf("%s[%d]", name, i), el))
+		}
+		return `"[" + ` + strings.Join(parts, ` + "," + `) + ` + "]"`
 	}
 	base := baseStruct(typ)
 	for _, s := range pr.Structs {
@@ -775,7 +786,7 @@ func checkABI(pr *Prog, nf *nef.File, di *compiler.DebugInfo) (exclUnused bool, 
 	switch {
 	case needInit && !hasInit:
 		return exclUnused, fmt.Errorf("the program has package state used by exported functions (or init functions) but no _initialize method")
-	case hasInit && len(pr.Globals) == 0 && len(pr.Inits) == 0 && !usesDefer(pr):
+	case hasInit && len(pr.Globals) == 0 && len(pr.Inits) == 0 && !usesDefer(pr) && !hasFuncVar(pr):
 		// (a defer needs a static slot for the pending exception, which _initialize allocates)
 		return exclUnused, fmt.Errorf("_initialize emitted for a program without package variables, init functions and defers")
 	case hasInit && byID[manifest.MethodInit].Range.Start != 0:
@@ -795,6 +806,15 @@ func scriptDiff(a, b []byte) string {
 		}
 	}
 	return "none"
+}
+
+func hasFuncVar(pr *Prog) bool {
+	for i := range pr.Funcs {
+		if pr.Funcs[i].AsVar {
+			return true
+		}
+	}
+	return false
 }
 
 func usesDefer(pr *Prog) bool {
